@@ -193,7 +193,7 @@ impl World for WorldI {
                         InBody::Transfer {
                             tok: if rng.chance(9, 10) { TokRef::Registered(rng.below(6) as u8) } else { TokRef::Unknown(rng.below(3) as u8) },
                             to: match rng.weighted(&[10, 4, 1]) { 0 => Recipient::User(rng.below(4) as u8), 1 => Recipient::App, _ => Recipient::Garbage },
-                            amount: match rng.weighted(&[1, 10, 3, 2, 1, 1, 1, 1]) {
+                            amount: match rng.weighted(&[1, 10, 3, 2, 1, 1, 1, 1, 2]) {
                                 0 => InAmt::Zero,
                                 1 => InAmt::Lit(rng.range(1, 300) as i64),
                                 2 => InAmt::Custody,
@@ -201,7 +201,8 @@ impl World for WorldI {
                                 4 => InAmt::I128Max,
                                 5 => InAmt::TwoPow127,
                                 6 => InAmt::TwoPow128,
-                                _ => InAmt::TwoPow255,
+                                7 => InAmt::TwoPow255,
+                                _ => InAmt::HighBitPlus { bit: *rng.pick(&[127u8, 128, 129, 135, 160, 191, 192, 200, 254, 255]), low: rng.range(1, 300) as u16 },
                             },
                             data: if rng.chance(1, 3) { Some(rng.below(3) as u8) } else { None },
                             src: rng.below(4) as u8,
